@@ -966,6 +966,10 @@ class Sym:
             eff_const = target.endswith(' const')
             if recv is not None and not eff_const:
                 st.effects.append(('call', target, recv, tuple(args)))
+            if recv is None and f is None and callee.get('repo') is False and callee.get('ret') != 'bool' \
+                    and any(isinstance(a, tuple) and a and a[0] in ('addr', 'op', 'param', 'fld', 'deref') for a in args) \
+                    and contracts_free_effect(target):
+                st.effects.append(('fcall', target, None, tuple(args)))
             t = ('call', target, recv, tuple(args))
             if recv is not None and eff_const:
                 # an observation of a container made after it was grown in this evaluation is a different value
@@ -1184,6 +1188,14 @@ class Sym:
             st.contents.setdefault(recv, []).append(o)
             return pre + [(st, ('addr', o))]
         raise Unsupported(f'make_node initialiser form {init.get("k")}')
+
+
+def contracts_free_effect(fid):
+    """Free functions of the standard library that write through their arguments."""
+    q = fid.split('(')[0]
+    name = q.rsplit('::', 1)[-1].split('<')[0]
+    return name in ('copy', 'copy_n', 'fill', 'fill_n', 'memcpy', 'memmove', 'memset', 'strcpy', 'strncpy', 'swap',
+                    'move', 'move_backward', 'copy_backward', 'uninitialized_copy', 'uninitialized_fill', 'iota', 'generate')
 
 
 _MUTATORS = ('push_back', 'push_front', 'insert', 'insert_or_assign', 'emplace', 'emplace_back', 'emplace_front',
